@@ -32,9 +32,10 @@ def all_paths(g):
     return sorted(out)
 
 
-def token(r):
-    """r1 presents no credential at all (its requests carry no token header), r2 is an administrator, the others are users"""
-    if r == "r1":
+def token(r, variant=0):
+    """r2 is an administrator, the others are users - except that in the even variants r1 presents no credential at all (its
+    requests carry no token header)"""
+    if r == "r1" and variant % 2 == 0:
         return ""
     return ("admin-" if r == "r2" else "user-") + r
 
@@ -112,13 +113,13 @@ def run(tier, replay=None):
                         ev.append({"e": "stage", "r": r, "stage": "body", "token": r})
                     elif (r, stg) in seenmap:
                         t = seenmap[(r, stg)]["token"]
-                        ev.append({"e": "stage", "r": r, "stage": stg, "token": r if t == token(r) else "foreign:" + t})
+                        ev.append({"e": "stage", "r": r, "stage": stg, "token": r if t == token(r, job["variant"]) else "foreign:" + t})
                 for s in res["seen"]:
                     r = s["req"]
                     where = "%s stage=%s" % (tag, s["stage"])
-                    if s["token"] != token(r):
+                    if s["token"] != token(r, job["variant"]):
                         run_.diverge(where + " foreign-token", "stage %s of request %s saw token %r (its own is %r); schedule %s"
-                                     % (s["stage"], r, s["token"], token(r), sched["steps"]), rp)
+                                     % (s["stage"], r, s["token"], token(r, job["variant"]), sched["steps"]), rp)
                     if s["order"] != [1, 2, 3]:
                         run_.diverge(where + " context-function-order", "stage %s of %s saw context functions applied as %s" % (s["stage"], r, s["order"]), rp)
                     if s["stage"] != "cf" and job["transport"] != "stateless" and s["session"] != "own":
@@ -151,11 +152,11 @@ def run(tier, replay=None):
                     for i in range(1, job["nreq"] + 1):
                         r = "r%d" % i
                         plain, full = names[job["variant"] % 3]
-                        want = full if token(r).startswith("admin") else ([] if token(r) == "" else plain)
+                        want = full if token(r, job["variant"]).startswith("admin") else ([] if token(r, job["variant"]) == "" else plain)
                         got = res["listed"].get(r)
                         if got != want:
                             what = "hidden-entry-leaked" if got and any(x.startswith("secret") for x in got) and want == plain else "list-wrong"
-                            run_.diverge(tag + " " + what, "%s (token %s) was answered %s, the filter admits %s; schedule %s" % (r, token(r), got, want, sched["steps"]), rp)
+                            run_.diverge(tag + " " + what, "%s (token %s) was answered %s, the filter admits %s; schedule %s" % (r, token(r, job["variant"]), got, want, sched["steps"]), rp)
                 items.append((res["id"], ev))
                 st = sched["steps"]
                 if any(st[i] != st[i + 1] and st[i] in st[i + 1:] for i in range(len(st) - 1)):
